@@ -76,7 +76,10 @@ U == <<
   (* inputs whose "type" is itself a definition *)
   DWrap(H("Y"), DRec(H("X"), <<TP("int")>>)),                  \* 24  {name:Y, type:{record X}}
   DWrap(H("X"), DFix(H("X"), 1)),                              \* 25  {name:X, type:{fixed X}}
-  DRec(H("B"), <<TR("Y")>>)                                    \* 26  B -> Y
+  DRec(H("B"), <<TR("Y")>>),                                   \* 26  B -> Y
+  (* a named LOGICAL type as an input (by the harness' convention a fixed of size 12 is rendered as a duration) *)
+  DFix(H("T"), 12),                                            \* 27  T (duration on fixed 12)
+  DRec(H("D"), <<TR("T"), TOpt(TR("T"))>>)                     \* 28  D -> T
 >>
 N == Len(U)
 
